@@ -48,8 +48,18 @@ func genC03Case(t *rapid.T) C03Case {
 	if rapid.IntRange(0, 3).Draw(t, "acsany") == 0 {
 		acsURL = "https://sp.example/" + xt.LegalString(4).Draw(t, "acstail")
 	}
+	switch rapid.IntRange(0, 9).Draw(t, "big") {
+	case 0:
+		u.Custom = append(u.Custom, world.CustomAttr{Name: "groups-big", NameFormat: "urn:oasis:names:tc:SAML:2.0:attrname-format:basic", Values: bigValues(rapid.SampledFrom([]int{150, 400, 700}).Draw(t, "nbig"), "c03")})
+	case 1:
+		u.Custom = append(u.Custom, world.CustomAttr{Name: "blob-big", Values: []string{bigString(12000, "c03-")}})
+	}
 	appID := genNonEmptyLegal(t, "appid", 4)
-	req := world.RequestSpec{ID: "stored-c03", AppID: appID, RelayState: xt.LegalString(5).Draw(t, "relay"), ACS: acsURL, Binding: binding,
+	relay := xt.LegalString(5).Draw(t, "relay")
+	if rapid.IntRange(0, 9).Draw(t, "bigrelay") == 0 {
+		relay = bigString(rapid.SampledFrom([]int{1500, 9000}).Draw(t, "relaylen"), relay)
+	}
+	req := world.RequestSpec{ID: "stored-c03", AppID: appID, RelayState: relay, ACS: acsURL, Binding: binding,
 		AuthRequestID: xt.LegalString(4).Draw(t, "authreqid"), UserID: u.UserID, Done: true}
 	spec := world.Spec{IdP: idp, SPs: []world.SPSpec{stdSP(0)}, Users: []world.UserSpec{u, stdUser(1)},
 		Apps: map[string]string{appID: genNonEmptyLegal(t, "audience", 5), "other-app": "https://other-audience.example"}, Requests: []world.RequestSpec{req}}
